@@ -153,6 +153,18 @@ func randomCase(rng *rand.Rand) M {
 	if len(chunks) > 0 && chunks[len(chunks)-1] > 0 && rng.Intn(2) == 0 {
 		s.WithData = true
 	}
+	// one-shot (non-repeating) conditions in the middle of the stream, a Close that fails
+	if len(chunks) > 0 && rng.Intn(3) == 0 {
+		s.Conds = make([]string, len(chunks))
+		for k := 0; k < 1+rng.Intn(2); k++ {
+			i := rng.Intn(len(chunks))
+			if s.WithData && i == len(chunks)-1 {
+				continue
+			}
+			s.Conds[i] = []string{"err", "err", "eof"}[rng.Intn(3)]
+		}
+	}
+	s.CloseErr = rng.Intn(4) == 0
 	bodyNil := rng.Intn(12) == 0
 	if bodyNil {
 		s = streamkit.Script{Term: "eof"}
